@@ -58,3 +58,36 @@ Definition send_with (wrap : list N -> Z -> list (list N)) (nicklen : nat) (msgT
 
 Definition pieces_of (wrap : list N -> Z -> list (list N)) (w : Z) (message : list N) : list (list N) :=
   flat_map (fun l => wrap l w) (split_lf message).
+
+(** ---------------------------------------------------------------- the rate-limited output queue
+    ([lineRate] set): [sendLine] appends to [_queue] and, when no timer is pending, calls
+    [_sendLine]; [_sendLine] (also the timer's callback) pops the OLDEST line, writes it and re-arms
+    the timer, or disarms it when the queue is empty.  Lines here are whatever [sendLine] is given. *)
+Record qstate := mkQ { q_queue : list (list N); q_sent : list (list N); q_timer : bool }.
+
+Definition q_init : qstate := mkQ [] [] false.
+
+(** [_sendLine] *)
+Definition q_fire (st : qstate) : qstate :=
+  match q_queue st with
+  | [] => mkQ [] (q_sent st) false
+  | l :: r => mkQ r (q_sent st ++ [l]) true
+  end.
+
+(** [sendLine(l)] with lineRate set *)
+Definition q_send (st : qstate) (l : list N) : qstate :=
+  let st' := mkQ (q_queue st ++ [l]) (q_sent st) (q_timer st) in
+  if q_timer st then st' else q_fire st'.
+
+Inductive qop := QSend (l : list N) | QTick.     (* QTick: the clock reaches the timer (if armed) *)
+
+Definition q_step (st : qstate) (o : qop) : qstate :=
+  match o with
+  | QSend l => q_send st l
+  | QTick => if q_timer st then q_fire st else st
+  end.
+
+Definition q_run (st : qstate) (ops : list qop) : qstate := fold_left q_step ops st.
+
+Definition q_sends (ops : list qop) : list (list N) :=
+  flat_map (fun o => match o with QSend l => [l] | QTick => [] end) ops.
